@@ -2,6 +2,7 @@
 # tools/seedrun.sh [pattern]: run every stored seeded change against the check of its own property
 # and record the outcome in seeded/<name>/meta.json (detected_by) and seeded/RESULTS.txt
 cd /verif
+export VERIF_EVIDENCE_DIR=/var/tmp/verif-scratch/evidence-mut
 if [ -n "$(git -C /repo status --short)" ]; then echo "REFUSING: /repo dirty"; exit 2; fi
 for d in seeded/*${1:-}*/; do
   n=$(basename $d); prop=${n%%-*}
